@@ -117,11 +117,15 @@ StepAttached(st0, n, v) ==
        IF it.kind = "arg" THEN FeedArg(st1, it.id, v)
        ELSE Kill(Feed(st1, it.id, "U"), "unexpected")   \* a flag does not take a value
 
+\* positional items declared in front of the subcommands of a level: each takes one word, and only then can a
+\* command be entered
+PrePos(lvl) == IF lvl.tail.kind = "cmd" /\ "pre_pos" \in DOMAIN lvl.tail THEN lvl.tail.pre_pos ELSE <<>>
 StepWord(st, w) ==
   LET lvl == Cur(st).lvl IN
   IF lvl.tail.kind = "cmd" THEN
        LET ix == CmdIx(lvl, w) IN
-       IF ~st.frozen /\ ix # {}
+       IF Len(Cur(st).pos) < Len(PrePos(lvl)) THEN PushPos(st, w, FALSE)
+       ELSE IF ~st.frozen /\ ix # {}
        THEN LET k == CHOOSE k \in ix : TRUE  c == lvl.tail.cmds[k] IN
             [SetCur(st, [Cur(st) EXCEPT !.child = k]) EXCEPT
                 !.frames = Append(@, NewFrame(c.level)), !.path = Append(@, c.names[1])]
@@ -288,6 +292,19 @@ FrameVal(frames, k, envv) ==
                                       ELSE [ok |-> FALSE, why |-> [k |-> "surplus"]]
       [] f.lvl.tail.kind = "pos"  -> LET r == AssignPos(f.lvl.tail.items, f.pos, <<>>) IN
                                       IF r.ok THEN [ok |-> TRUE, v |-> [t |-> base \o r.vals]] ELSE r
+      [] f.lvl.tail.kind = "cmd" /\ PrePos(f.lvl) # <<>> ->
+           \* the leading positional items first, then the command (none of these levels has a positional alternative)
+           LET np == Len(PrePos(f.lvl))
+               r0 == AssignPos(PrePos(f.lvl), SubSeq(f.pos, 1, IF Len(f.pos) < np THEN Len(f.pos) ELSE np), <<>>) IN
+           IF ~r0.ok THEN r0
+           ELSE IF Len(f.pos) > np THEN [ok |-> FALSE, why |-> [k |-> "surplus"]]
+           ELSE IF k < Len(frames)
+           THEN LET c == FrameVal(frames, k + 1, envv) IN
+                IF ~c.ok THEN c
+                ELSE LET cv == [v |-> f.child - 1, x |-> c.v] IN
+                     [ok |-> TRUE, v |-> [t |-> Append(base \o r0.vals, IF f.lvl.tail.optional THEN [some |-> cv] ELSE cv)]]
+           ELSE IF f.lvl.tail.optional THEN [ok |-> TRUE, v |-> [t |-> Append(base \o r0.vals, "NONE")]]
+           ELSE [ok |-> FALSE, why |-> [k |-> "missing", id |-> "command"]]
       [] f.lvl.tail.kind = "cmd"  ->
            IF f.pos # <<>> /\ (f.lvl.tail.else_pos = <<>> \/ k < Len(frames)) THEN [ok |-> FALSE, why |-> [k |-> "surplus"]]
            ELSE IF k = Len(frames) /\ f.lvl.tail.else_pos # <<>> /\
